@@ -85,10 +85,11 @@ fn run_line(line: &str) -> Result<serde_json::Value, String> {
     errors.append(&mut Analyzer::analyze_post_pass1());
     errors.append(&mut analyzer.analyze_pass2(&parser.veryl, &mut context, Some(&mut ir)));
     errors.append(&mut Analyzer::analyze_post_pass2(&ir));
+    // as the CLI: warnings (MissingResetStatement, UnusedVariable, ...) do not stop a run
     let hard: Vec<String> = errors
         .iter()
+        .filter(|e| e.is_error())
         .map(|e| format!("{e:?}").chars().take_while(|c| c.is_alphanumeric() || *c == '_').collect::<String>())
-        .filter(|n| !matches!(n.as_str(), "UnusedVariable" | "InvalidLogicalOperand" | "UnsignedArithShift" | "UnassignVariable" | "UnusedReturn"))
         .collect();
     if !hard.is_empty() {
         return Err(format!("ERR analyze {}", hard.join(",")));
